@@ -37,6 +37,71 @@ def err(v):
     return ('adt', RESULT, 1, (v,))
 
 
+def max_degree(t, degs):
+    """Largest |scaling degree| (data x -> c*x) over the subterms of t, or None when a subterm is not homogeneous.
+    degs: degree of the state symbols (None: a log-space quantity - only exp(..) of it scales, with degree 1)."""
+    best = [Fraction(0)]
+
+    class Mixed(Exception):
+        pass
+
+    def deg(u):
+        k = u[0]
+        if k in ('int', 'flt', 'bool'):
+            return 'any' if (k != 'bool' and not isinstance(u[1], str) and u[1] == 0) else Fraction(0)
+        if k == 'sym':
+            d = degs.get(u[1], Fraction(0))
+            return Fraction(0) if d is None else d
+        if k == 'op':
+            n, a = u[1], u[2]
+            if n in ('zero',):
+                return 'any'
+            if n in ('one', 'epsilon'):
+                return Fraction(0)
+            if n == 'exp':
+                # exp of a log-space mean scales like the data; its argument is a logarithm (degree 0)
+                r = Fraction(1)
+            elif n in ('i2f', 'f2f', 'neg', 'abs', 'f2i', 'i2i', 'ref'):
+                r = deg(a[0])
+            elif n == 'mul':
+                d1, d2 = deg(a[0]), deg(a[1])
+                r = 'any' if 'any' in (d1, d2) else d1 + d2
+            elif n == 'div':
+                d1, d2 = deg(a[0]), deg(a[1])
+                r = 'any' if d1 == 'any' else d1 - (Fraction(0) if d2 == 'any' else d2)
+            elif n in ('add', 'sub', 'fmin', 'fmax', 'min', 'max'):
+                d1, d2 = deg(a[0]), deg(a[1])
+                if d1 == 'any':
+                    r = d2
+                elif d2 == 'any' or d1 == d2:
+                    r = d1
+                else:
+                    raise Mixed()
+            elif n == 'sqrt':
+                d1 = deg(a[0])
+                r = d1 if d1 == 'any' else d1 / 2
+            elif n == 'ln':
+                deg(a[0])
+                r = Fraction(0)
+            elif n == 'powi':
+                d1 = deg(a[0])
+                e = a[1][1] if a[1][0] == 'int' else None
+                if e is None:
+                    raise Mixed()
+                r = d1 if d1 == 'any' else d1 * e
+            else:
+                raise Mixed()
+            if r != 'any':
+                best[0] = max(best[0], abs(r))
+            return r
+        raise Mixed()
+    try:
+        deg(t)
+    except Mixed:
+        return None
+    return best[0]
+
+
 def whole_program(chk, facts, nf_, key, where, clabel, tname, kind, kname, inner_kind):
     """Non-modular form of D2 / D3: on both the Student-t and the normal branch, the finite bounds of the wrapper are
     exp / reciprocal (ends exchanged) of the finite bounds of the arithmetic producer run on the wrapped state with
@@ -287,6 +352,15 @@ def run_cfg(chk, facts, cfg):
                     sem = p2[0][0].ret
                     want = T.op('mul', want_mean, sem) if tname == 'Geometric' else T.op('mul', T.op('mul', want_mean, want_mean), sem)
                 good = nf.term_equal(got, want)
+                # dynamic range: equal over the reals is not enough if an intermediate of the code has a higher
+                # scaling degree in the data than any intermediate of the documented form (it then overflows /
+                # underflows for data whose documented result is an ordinary number, e.g. (H*H)^2 * var under a sqrt)
+                if good:
+                    degs = ({'S1': Fraction(-1), 'S2': Fraction(-2), 'n': Fraction(0)} if tname == 'Harmonic' else {'S1': None, 'S2': None, 'n': Fraction(0)})
+                    dg, dw = max_degree(got, degs), max_degree(want, degs)
+                    okd = dg is not None and dw is not None and dg <= dw
+                    chk.ob(key + ':range', 'E9 scaling degree', '%s::%s: no intermediate value scales with a higher power of the data than in the documented form (degree %s vs %s)' % (tname, sname, dg, dw),
+                           okd, '' if okd else 'the code forms an intermediate of scaling degree %s in the data; the documented form stays within degree %s' % (dg, dw), where)
                 chk.ob(key, 'E4', '%s::%s is %s' % (tname, sname, ('exp(mean of logs)' if tname == 'Geometric' else '1/(mean of reciprocals)') if sname == 'sample_mean' else
                                                      ('G * se(ln x)' if tname == 'Geometric' else 'H^2 * se(1/x)') + ' with se the wrapped state\'s own standard error'),
                        good, '' if good else 'code: %s' % T.show(got)[:200], where, sample={'fn': '%s::%s' % (tname, sname)})
